@@ -195,6 +195,19 @@ let dispatch name =
     plist (fun (f : Faces.face) -> p3 f.Faces.fn0; p3 f.Faces.fn1; p3 f.Faces.fn2; p3 f.Faces.fn3; pnat f.Faces.owner;
                                     (match f.Faces.neighbor with Some n -> pint (int_of_nat n) | None -> pint (-1)))
       (Exec.x_model_faces g)
+  | "edge_loop" -> let rtol = rq () in let atol = rq () in
+    let cs = rlist (fun () -> let a = rqlist () in let b = rqlist () in (a, b)) in
+    pres (plist (fun (i, f) -> pnat i; pbool f)) (Exec.q_edge_loop rtol atol cs)
+  | "right_hand" -> let tol = rq () in let htol = rq () in let o = robj () in
+    pres pbool (Exec.q_obj_right_hand tol htol o)
+  | "ofoam" ->
+    let fs = rlist (fun () -> let nodes = rnatlist () in let ow = rnat () in let nb = rint () in let nm = rint () in
+               { OFoam.f_nodes = nodes; f_owner = ow; f_neighbor = Z.of_int nb; f_name = (if nm < 0 then None else Some (nat_of_int nm)) }) in
+    let ordered = Exec.x_ofoam_order fs in
+    plist (fun (f : OFoam.face) -> plist pnat f.OFoam.f_nodes; pnat f.OFoam.f_owner; out (Z.to_string f.OFoam.f_neighbor);
+                                    (match f.OFoam.f_name with Some n -> pnat n | None -> pint (-1))) ordered;
+    plist (fun (b : OFoam.block) -> pnat b.OFoam.b_name; pnat b.OFoam.b_nfaces; pnat b.OFoam.b_start) (Exec.x_ofoam_blocks ordered);
+    pnat (Exec.x_ofoam_declared ordered); pnat (Exec.x_ofoam_ninternal ordered)
   | "curve_interpolate" -> let tol = rq () in let b = rbasis () in let ts = rqlist () in let x = rlist rqlist in
     pres (fun o -> plist pqlist o.Obj.o_cps) (Exec.q_curve_interpolate tol b ts x)
   | "curve_lsq" -> let tol = rq () in let b = rbasis () in let ts = rqlist () in let x = rlist rqlist in
